@@ -56,10 +56,19 @@ def orf_tables(repo: Path) -> str:
     pairs = sorted(ambiguous_dna_complement.items())
     pairs += [(a.lower(), b.lower()) for a, b in pairs]
     comp = ", ".join(f"('{a}', '{b}')" for a, b in pairs)
+    from Bio.Data import CodonTable
+    extra = ""
+    for table_id in (1, 11):      # the translation tables antiSMASH records use (Record.from_biopython)
+        tab = CodonTable.unambiguous_dna_by_id[table_id]
+        fwd = ", ".join(f"({_lean_chars(codon)}, '{aa}')" for codon, aa in sorted(tab.forward_table.items()))
+        extra += (f"def forwardTable{table_id} : List (List Char × Char) := [{fwd}]\n"
+                  f"def stopCodons{table_id} : List (List Char) := "
+                  f"[{', '.join(_lean_chars(c) for c in tab.stop_codons)}]\n")
     return ("namespace ASV.Orf.Gen\n"
             f"def startCodons : List (List Char) := [{', '.join(_lean_chars(c) for c in starts)}]\n"
             f"def stopCodons : List (List Char) := [{', '.join(_lean_chars(c) for c in stops)}]\n"
             f"def complementPairs : List (Char × Char) := [{comp}]\n"
+            + extra +
             "end ASV.Orf.Gen\n")
 
 
